@@ -378,8 +378,14 @@ func verifC13ConcParent(c VerifC13Case, dir string) VerifC13Obs {
 			return VerifC13Obs{Outcome: "ok", Conc: "survived"}
 		}
 		e := stderr.String()
-		if strings.Contains(e, "concurrent map") {
+		// the live map is read by a serialiser while an asserter writes it: either Go's detector fires
+		// ("fatal error: concurrent map ...") or encoding/json's map encoder trips over the map that grew
+		// under it (index out of range in mapEncoder.encode)
+		if strings.Contains(e, "concurrent map") || strings.Contains(e, "encoding/json.mapEncoder.encode") {
 			i := strings.Index(e, "fatal error")
+			if i < 0 {
+				i = strings.Index(e, "panic:")
+			}
 			if i < 0 {
 				i = 0
 			}
